@@ -47,6 +47,9 @@ def cases(draw):
         cfg["detect_minimal_iri"] = True      # the stem is part of the shape expression: presentation options must keep it
     if draw(st.integers(0, 5)) == 0:
         cfg["inverse_paths"] = True
+    if draw(st.integers(0, 5)) == 0:
+        cfg["disable_or_statements"] = False
+        cfg["allow_redundant_or"] = draw(st.booleans())
     target = draw(common.target_spec(g))
     thr = draw(st.sampled_from([0, 0, 0, 0.5, 1 / 3, 1]))
     opt = draw(st.sampled_from(OPTIONS))
@@ -160,6 +163,14 @@ def check(case):
     try:
         a = oracle.read_canon(out1, inst_prop)
     except oracle.shexc.ShExCError as e:
+        if opt in ("disable_comments", "decimals", "instances_report_mode", "namespaces_dict", "shapes_namespace") and out2 is not None:
+            try:
+                oracle.read_canon(out2, inst_prop)
+            except oracle.shexc.ShExCError:
+                return discard("unparsable-output")
+            # readable only WITH the presentation option: the two outputs cannot state the same constraints
+            return violation("without %s=%r the output is not readable as ShExC (%s) while the output with it is\n--- without ---\n%s\n--- with ---\n%s" % (
+                opt, val, e, out1[:1500], out2[:1500]), {"opt:" + opt}, True)
         return discard("unparsable-output")
     try:
         b = oracle.read_canon(out2, inst_prop)
